@@ -73,7 +73,7 @@ def main():
                 if os.path.exists(notes):
                     first = " ".join(open(notes).read().split())[:700]
                 meta.update({
-                    "property": pid, "mutant": k + offset, "round": 1 if offset == 0 else 2, "source": "independent sub-agent given only the property text and a scratch worktree",
+                    "property": pid, "mutant": k + offset, "round": offset // 2 + 1, "source": "independent sub-agent given only the property text and a scratch worktree",
                     "applies_to_repo_head": head, "applied_with": how, "ported_to_fixed_tree": os.path.exists(ported),
                     "what_it_needs_to_manifest": first,
                     "confirmed": {"pinned_suite_with_change": base.stdout.strip().splitlines()[0],
